@@ -248,6 +248,15 @@ class Expr:
             fi = self.idx.find_method(cname, attr)
             if fi is not None and not self.is_property(fi) and not self.is_abstract(fi):
                 return [(VFunc(fi.node, {}, fi.module, fi.qualname, self_sv=recv, cls=cname), st)]
+        # class-level constant of a plain (non-dataclass) class read through self, never assigned on instances
+        if is_self and recv.cls is None:
+            for c in self.idx.mro(self.cur_class):
+                if c.is_dataclass:
+                    break
+                cv = dict((n, v) for n, v in c.fields).get(attr)
+                if cv is not None and isinstance(cv, (ast.Tuple, ast.Dict)) and c.module == self.cur_module \
+                        and not self.assigned_on_self(self.cur_class, attr):
+                    return self.ev(cv, st)
         # IConv interface methods on any other receiver (and abstract ones on self)
         if attr in self.ICONV_METHODS and recv.kind != 'rec' and not (recv.cls and not self.is_converter_class(recv.cls)):
             return [(VBuiltin('iconv.' + attr, recv=recv), st)]
@@ -264,6 +273,13 @@ class Expr:
         # attribute may be absent: AttributeError
         ha = th.has_attr(attr)(recv.term)
         return self.outcomes(st, [(ha, out), (z3.Not(ha), ('raise', 'AttributeError', f'getattr:{src}'))])
+
+    def assigned_on_self(self, cname: str, attr: str) -> bool:
+        for c in self.idx.mro(cname):
+            for sub in ast.walk(c.node):
+                if isinstance(sub, ast.Attribute) and sub.attr == attr and isinstance(sub.ctx, (ast.Store, ast.Del)):
+                    return True
+        return False
 
     def attr_total(self, recv: VVal, attr: str, src) -> bool:
         """Attribute reads that cannot fail: fields of self / of records / of declared shapes."""
